@@ -28,6 +28,9 @@ pub enum Extra {
     OutDir(bool),
     /// link to a directory inside the source which itself contains links
     DirWithLinks,
+    /// chain across directories with relative hops: s/x -> xsub/hop, s/xsub/hop -> final (relative to xsub),
+    /// with a decoy of the same name next to the first link
+    CrossDirChain(bool),
 }
 
 #[derive(Clone, Debug, Serialize, Deserialize)]
@@ -50,6 +53,7 @@ pub fn strategy() -> BoxedStrategy<Case> {
         1 => Just(Extra::SelfLoop),
         3 => any::<bool>().prop_map(Extra::OutDir),
         2 => Just(Extra::DirWithLinks),
+        2 => any::<bool>().prop_map(Extra::CrossDirChain),
     ];
     (prop::collection::vec(gent(NAMES.len(), true), 0..12), prop::collection::vec(extra, 0..3), common_flags(), any::<bool>(), prop::bool::weighted(0.15), prop::bool::weighted(0.6))
         .prop_map(|(tree, extras, flags, dest_exists, top_link, clean)| Case { tree, extras, flags, dest_exists, top_link, clean })
@@ -114,6 +118,22 @@ pub fn build(c: &Case, root: &[u8]) -> (Vec<Ent>, Inv) {
                 let t = if *abs { join(root, b"by/sub") } else { b"../by/sub".to_vec() };
                 ents.push(Ent::link(&p("out"), &t));
             }
+            Extra::CrossDirChain(to_dir) => {
+                let sub = p("xsub");
+                ents.push(Ent::dir(&sub));
+                let fin = format!("x{}_final", i);
+                if *to_dir {
+                    ents.push(Ent::dir(&join(&sub, fin.as_bytes())));
+                    ents.push(Ent::file(&join(&join(&sub, fin.as_bytes()), b"in_sub"), Content::data(31, 8)));
+                    ents.push(Ent::dir(&p("final")));
+                    ents.push(Ent::file(&join(&p("final"), b"decoy"), Content::data(32, 9)));
+                } else {
+                    ents.push(Ent::file(&join(&sub, fin.as_bytes()), Content::data(41, 8)));
+                    ents.push(Ent::file(&p("final"), Content::data(42, 9)));
+                }
+                ents.push(Ent::link(&join(&sub, b"hop"), fin.as_bytes()));
+                ents.push(Ent::link(&p("start"), format!("x{}_xsub/hop", i).as_bytes()));
+            }
             Extra::DirWithLinks => {
                 let d = p("ldir");
                 ents.push(Ent::dir(&d));
@@ -176,6 +196,9 @@ pub fn judge(c: &Case, rec: &mut Rec) -> Verdict {
         40 => "chain40",
         _ => "chain41+",
     };
+    if c.extras.iter().any(|x| matches!(x, Extra::CrossDirChain(_))) {
+        rec.class("cross-directory-relative-chain");
+    }
     let leaves = c.extras.iter().any(|x| matches!(x, Extra::OutDir(_))) || pre.iter().any(|(p, m)| p.starts_with(b"s/") && m.link.as_deref().map(|l| l.contains("by/")).unwrap_or(false));
     match &plan {
         Plan::MustFail(why) => {
@@ -264,6 +287,6 @@ impl Check for C13 {
         }
     }
     fn required_classes(&self, _tier: Tier) -> Vec<String> {
-        ["mustfail|dangling", "mustfail|link", "mustfail|directory", "chain40", "dirlinks=1", "leaves-source", "top_link=true"].iter().map(|s| s.to_string()).collect()
+        ["mustfail|dangling", "mustfail|link", "mustfail|directory", "chain40", "dirlinks=1", "leaves-source", "top_link=true", "cross-directory-relative-chain"].iter().map(|s| s.to_string()).collect()
     }
 }
